@@ -142,6 +142,7 @@ package method
 // or an error when no entry is satisfiable
 //@ func Index.Get
 //@   props C06 C13
+//@   pure
 //@   requires@C13 IndexWF(l)
 //@   assigns nothing
 //@   ensures !has(l.Exact, sig) ==> result == nil && err == nil
